@@ -88,31 +88,32 @@ func checkBits(c bcase) *mc.Failure {
 // ---------------- Trunc ----------------
 
 type tcase struct {
-	S string `json:"s"`
-	N int    `json:"n"`
+	S mc.BStr `json:"s"`
+	N int     `json:"n"`
 }
 
 func checkTrunc(c tcase) *mc.Failure {
 	return mc.Guard(func() *mc.Failure {
-		got := mstr.Trunc(c.S, c.N)
-		if !strings.HasPrefix(c.S, got) {
-			return mc.Failf(0, "Trunc(%q,%d)=%q is not a prefix", c.S, c.N, got)
+		s := string(c.S)
+		got := mstr.Trunc(s, c.N)
+		if !strings.HasPrefix(s, got) {
+			return mc.Failf(0, "Trunc(%q,%d)=%q is not a prefix", s, c.N, got)
 		}
-		if c.N >= len(c.S) {
-			if got != c.S {
-				return mc.Failf(0, "Trunc(%q,%d)=%q, want the string itself", c.S, c.N, got)
+		if c.N >= len(s) {
+			if got != s {
+				return mc.Failf(0, "Trunc(%q,%d)=%q, want the string itself", s, c.N, got)
 			}
 			return nil
 		}
 		if len(got) > c.N {
-			return mc.Failf(0, "Trunc(%q,%d)=%q is longer than n", c.S, c.N, got)
+			return mc.Failf(0, "Trunc(%q,%d)=%q is longer than n", s, c.N, got)
 		}
-		if utf8.ValidString(c.S) {
+		if utf8.ValidString(s) {
 			if !utf8.ValidString(got) {
-				return mc.Failf(0, "Trunc(%q,%d)=%q is not valid UTF-8 although the input is", c.S, c.N, got)
+				return mc.Failf(0, "Trunc(%q,%d)=%q is not valid UTF-8 although the input is", s, c.N, got)
 			}
 			if c.N-len(got) > 4 {
-				return mc.Failf(0, "Trunc(%q,%d)=%q is more than one encoded character (4 bytes) shorter than n", c.S, c.N, got)
+				return mc.Failf(0, "Trunc(%q,%d)=%q is more than one encoded character (4 bytes) shorter than n", s, c.N, got)
 			}
 		}
 		return nil
@@ -279,7 +280,7 @@ func main() {
 				mc.ParallelFor(len(strs), r.Workers, func(i int) {
 					s := strs[i]
 					for n := 0; n <= len(s)+1; n++ {
-						c := tcase{s, n}
+						c := tcase{mc.BStr(s), n}
 						if f := checkTrunc(c); f != nil {
 							r.Violation(mc.Case{Harness: "trunc", Trace: mc.J(c), Msg: f.Msg})
 						}
@@ -291,7 +292,7 @@ func main() {
 				})
 				r.AddEval(int64(len(strs)), evals, evals, multi)
 				r.Rule("all strings of mixed-width runes (1,2,3,4 bytes) and all byte strings over {a,0x80,0xC3,0xE2,0xF0} up to the bounds, every cut point 0..len+1; non-trivial = cuts that land inside an encoding")
-				r.Sample(tcase{"é€", 3})
+				r.Sample(tcase{mc.BStr("é€"), 3})
 			},
 			Replay: func(c mc.Case) *mc.Failure {
 				var t tcase
